@@ -62,6 +62,13 @@ impl wtransport_proto::bytes::AsyncRead for ScriptedReader {
         if buf.is_empty() {
             return Poll::Ready(Ok(0));
         }
+        // a scripted Pending happens whether or not data is left: "some bytes, not ready, then the end"
+        // is a different history from "some bytes, then the end"
+        if self.step < self.script.len() && self.script[self.step] == 0 {
+            self.step += 1;
+            cx.waker().wake_by_ref();
+            return Poll::Pending;
+        }
         if self.pos >= self.data.len() {
             return match self.eof {
                 Eof::Fin => Poll::Ready(Ok(0)),
